@@ -729,4 +729,203 @@ theorem deliverN_app_dup (fuel nx : Nat) (c : Cl) (e : Ev) (mid ts tok : Nat)
       · rw [deliverOnce_blocked retry nx c e r hr h34]
         exact quiet_refl _ c
 
+/-! ## §D  one slot: application messages created in the client's current state -/
+
+/-- the conditions on the messages of one slot that mention only the EVENTS and the core `k` of the state they were
+    created in: application messages created in the state with path `k.1`, by others than the receiver `id`, published
+    under that state's nostr group id, with pairwise distinct event numbers, ciphertexts and message ids -/
+structure SlotEv (id : Nat) (k : Core) (M : List Ev) : Prop where
+  kind : ∀ e ∈ M, (appMid e).isSome = true
+  path : ∀ e ∈ M, e.path = k.1
+  foreign : ∀ e ∈ M, e.sender ≠ id
+  tag : ∀ e ∈ M, e.tag = k.2.2.nid
+  distinct : ∀ e1 ∈ M, ∀ e2 ∈ M, e1 ≠ e2 → e1.n ≠ e2.n ∧ e1.cipher ≠ e2.cipher ∧ appMid e1 ≠ appMid e2
+
+/-- an event that is stale for the whole slot: created in a state that is not a prefix of the client's path (a message or
+    a commit of a branch that lost, for instance), with an event number of its own -/
+def StaleSlot (p : Path) (M : List Ev) (x : Ev) : Prop := ¬ x.path <+: p ∧ ∀ e ∈ M, x.n ≠ e.n
+
+theorem rowOf_some {ep : Nat} {e : Ev} (h : (appMid e).isSome = true) :
+    ∃ mid ts tok, e.kind = .app mid ts tok ∧
+      rowOf ep e = some { mid := mid, author := e.sender, state := 1, epoch := ep, wrapper := e.n, msgTs := ts, tok := tok } := by
+  cases hk : e.kind with
+  | app mid ts tok => exact ⟨mid, ts, tok, rfl, by simp [rowOf, hk]⟩
+  | commit b sw => simp [appMid, hk] at h
+  | leave => simp [appMid, hk] at h
+
+theorem rowOf_mid {ep : Nat} {e : Ev} {row : MsgRow} (h : rowOf ep e = some row) : appMid e = some row.mid := by
+  unfold rowOf at h
+  split at h
+  · rename_i mid ts tok hk
+    cases h; simp [appMid, hk]
+  · cases h
+
+theorem ready_ensure {c c' : Cl} (h : Ready c) (hg : c'.hasGroup = c.hasGroup) (hr : c'.retention = c.retention)
+    (hm : c'.mgr = c.mgr) (hgg : c'.g = c.g ∨ c'.g = ensureSecret c.g) : Ready c' := by
+  rcases hgg with x | x
+  · exact ⟨hg ▸ h.hasGroup, x ▸ h.act, hr ▸ h.ret, x ▸ h.sec, fun s hs => by rw [x]; exact h.below s (hm ▸ hs), x ▸ h.nid⟩
+  · refine ⟨hg ▸ h.hasGroup, by rw [x, ensureSecret_active]; exact h.act, hr ▸ h.ret, by rw [x]; exact secretsOK_ensure _ h.sec,
+      fun s hs => by rw [x, ensureSecret_path]; exact h.below s (hm ▸ hs), by rw [x, ensureSecret_recNid, ensureSecret_nid]; exact h.nid⟩
+
+/-- what the client looks like inside a slot, after the delivery list `dl`, relative to its state `c0` at the start of the
+    slot: same configuration, snapshots, MLS state and group data; consumed generations and dedup records grew only by
+    the delivered events; every delivered message of the slot has its row; no other row was touched -/
+structure SlotInv (c0 : Cl) (M : List Ev) (dl : List Ev) (c : Cl) : Prop where
+  id : c.id = c0.id
+  persistent : c.persistent = c0.persistent
+  retention : c.retention = c0.retention
+  maxPast : c.maxPast = c0.maxPast
+  mgr : c.mgr = c0.mgr
+  ready : Ready c
+  path : c.g.path = c0.g.path
+  core : core c.g = core c0.g
+  cons : ∀ x ∈ c.g.consumed, x ∈ c0.g.consumed ∨ ∃ e ∈ dl, e ∈ M ∧ e.cipher = x
+  recs : ∀ n, (∀ e ∈ dl, n ≠ e.n) → getRec c n = getRec c0 n
+  rows : ∀ m, (∀ e ∈ dl, e ∈ M → appMid e ≠ some m) → findRow m c.msgs = findRow m c0.msgs
+  done : ∀ e ∈ dl, e ∈ M → ∀ row, rowOf (epochOf c0.g.path) e = some row →
+    findRow row.mid c.msgs = some row ∧ e.cipher ∈ c.g.consumed
+  uniq : Uniq c.msgs
+  dlOK : ∀ e ∈ dl, e ∈ M ∨ StaleSlot c0.g.path M e
+
+theorem slotInv_init (c0 : Cl) (M : List Ev) (hr : Ready c0) (hu : Uniq c0.msgs) : SlotInv c0 M [] c0 :=
+  ⟨rfl, rfl, rfl, rfl, rfl, hr, rfl, rfl, fun _ hx => Or.inl hx, fun _ _ => rfl, fun _ _ => rfl,
+   fun e he => (by cases he), hu, fun e he => (by cases he)⟩
+
+theorem slotInv_quiet {c0 c c' : Cl} {M dl : List Ev} {x : Ev} (h : SlotInv c0 M dl c) (hq : Quiet x.n c c')
+    (hpers : c'.persistent = c.persistent) (hx : x ∈ M → x ∈ dl) (hok : x ∈ M ∨ StaleSlot c0.g.path M x) :
+    SlotInv c0 M (dl ++ [x]) c' := by
+  have hmem : ∀ e, e ∈ dl → e ∈ dl ++ [x] := fun e he => List.mem_append_left _ he
+  have hpath : c'.g.path = c.g.path := by
+    rcases hq.g with y | y <;> rw [y]
+    exact ensureSecret_path _
+  have hcore : core c'.g = core c.g := by
+    rcases hq.g with y | y <;> rw [y]
+    exact core_ensureSecret _
+  refine ⟨hq.id.trans h.id, hpers.trans h.persistent, hq.retention.trans h.retention, hq.maxPast.trans h.maxPast,
+    hq.mgr.trans h.mgr, ready_ensure h.ready hq.hasGroup hq.retention hq.mgr hq.g, hpath.trans h.path, hcore.trans h.core,
+    ?_, ?_, ?_, ?_, hq.msgs ▸ h.uniq, ?_⟩
+  rotate_right
+  · intro e he
+    rcases List.mem_append.mp he with y | y
+    · exact h.dlOK e y
+    · simp only [List.mem_singleton] at y; subst y; exact hok
+  · intro y hy
+    rw [hq.consumed] at hy
+    rcases h.cons y hy with z | ⟨e, he, z⟩
+    · exact Or.inl z
+    · exact Or.inr ⟨e, hmem e he, z⟩
+  · intro n hn
+    rw [hq.recs n (hn x (by simp))]
+    exact h.recs n (fun e he => hn e (hmem e he))
+  · intro m hm
+    rw [hq.msgs]
+    exact h.rows m (fun e he => hm e (hmem e he))
+  · intro e he heM row hrow
+    rw [hq.msgs, hq.consumed]
+    rcases List.mem_append.mp he with y | y
+    · exact h.done e y heM row hrow
+    · simp only [List.mem_singleton] at y
+      subst y
+      exact h.done e (hx heM) heM row hrow
+
+/-- what a slot assumes of the client's state at its start -/
+structure SlotBase (c0 : Cl) (M : List Ev) : Prop where
+  ev : SlotEv c0.id (core c0.g) M
+  fresh : ∀ e ∈ M, getRec c0 e.n = none ∧ e.cipher ∉ c0.g.consumed
+
+theorem slot_step (c0 : Cl) (M dl : List Ev) (c : Cl) (x : Ev) (nx : Nat) (hb : SlotBase c0 M) (h : SlotInv c0 M dl c)
+    (hx : x ∈ M ∨ StaleSlot c0.g.path M x) : SlotInv c0 M (dl ++ [x]) (deliver c x nx).1 := by
+  have hpers := (deliver_config nx c x).2.1
+  rcases hx with hxM | hst
+  · obtain ⟨mid, ts, tok, hk, hrow⟩ := rowOf_some (ep := epochOf c0.g.path) (hb.ev.kind x hxM)
+    have hbase : Base c := base_of c h.ready.hasGroup h.ready.act h.ready.ret h.ready.sec h.ready.below.noFork
+    have hpath : x.path = c.g.path := (hb.ev.path x hxM).trans h.path.symm
+    have ho : outerOpens (ensureSecret c.g) x = true := outerOpens_parent c hbase x hpath
+    have hnid : c.g.nid = c0.g.nid := congrArg (fun k : Core => k.2.2.nid) h.core
+    have hroutes : routes c x = true := by
+      have : x.tag = c.g.recNid := by rw [h.ready.nid, hnid]; exact hb.ev.tag x hxM
+      simp [routes, h.ready.hasGroup, this]
+    have hfor : x.sender ≠ c.id := by rw [h.id]; exact hb.ev.foreign x hxM
+    have hle : epochOf x.path ≤ epochOf c.g.path := by rw [hpath]; exact Nat.le_refl _
+    have hpast : epochOf x.path < epochOf c.g.path → c.g.past.contains x.path = true := by
+      rw [hpath]; intro a; exact absurd a (Nat.lt_irrefl _)
+    by_cases hd : x ∈ dl
+    · obtain ⟨_, hq⟩ := deliverN_app_dup 3 nx c x mid ts tok hroutes h.ready.act ho hk hle hpast hfor (h.done x hd hxM _ hrow).2
+      exact slotInv_quiet h hq hpers (fun _ => hd) (Or.inl hxM)
+    · have hnum : ∀ e ∈ dl, x.n ≠ e.n := by
+        intro e he
+        rcases h.dlOK e he with y | y
+        · exact (hb.ev.distinct x hxM e y (fun z => hd (z ▸ he))).1
+        · exact (y.2 x hxM).symm
+      have hn : getRec c x.n = none := by rw [h.recs x.n hnum]; exact (hb.fresh x hxM).1
+      have hc : x.cipher ∉ c.g.consumed := by
+        intro z
+        rcases h.cons _ z with y | ⟨e, he, heM, y⟩
+        · exact (hb.fresh x hxM).2 y
+        · by_cases hex : x = e
+          · exact hd (hex ▸ he)
+          · exact (hb.ev.distinct x hxM e heM hex).2.1 y.symm
+      have hs := storeApp_stored c x mid ts tok
+      rw [← deliverN_app_store 3 nx c x mid ts tok (notBlocked_of_none hn) hroutes h.ready.act ho hk hle hpast hfor hc] at hs
+      rw [h.path] at hs
+      change AppStored c x _ (deliver c x nx).1 at hs
+      have hmem : ∀ e, e ∈ dl → e ∈ dl ++ [x] := fun e he => List.mem_append_left _ he
+      have hmid : appMid x = some mid := appMid_of_kind hk
+      refine ⟨hs.id.trans h.id, hpers.trans h.persistent, hs.retention.trans h.retention, hs.maxPast.trans h.maxPast,
+        hs.mgr.trans h.mgr,
+        ⟨hs.hasGroup ▸ h.ready.hasGroup, hs.active ▸ h.ready.act, hs.retention ▸ h.ready.ret, hs.secretsOK h.ready.sec,
+          fun s hm => by rw [hs.path]; exact h.ready.below s (hs.mgr ▸ hm), by rw [hs.recNid, hs.nid]; exact h.ready.nid⟩,
+        hs.path.trans h.path, hs.core.trans h.core, ?_, ?_, ?_, ?_, by rw [hs.msgs]; exact uniq_upsertRow _ _ h.uniq, ?_⟩
+      · intro y hy
+        rw [hs.consumed] at hy
+        rcases List.mem_cons.mp hy with z | z
+        · exact Or.inr ⟨x, by simp, hxM, z.symm⟩
+        · rcases h.cons y z with w | ⟨e, he, heM, w⟩
+          · exact Or.inl w
+          · exact Or.inr ⟨e, hmem e he, heM, w⟩
+      · intro n hn'
+        rw [hs.recs n (hn' x (by simp))]
+        exact h.recs n (fun e he => hn' e (hmem e he))
+      · intro m hm
+        have : m ≠ mid := fun z => hm x (by simp) hxM (by rw [hmid, z])
+        rw [hs.msgs, findRow_upsert_ne _ m _ this]
+        exact h.rows m (fun e he => hm e (hmem e he))
+      · intro e he heM row hr
+        rcases List.mem_append.mp he with y | y
+        · have hex : e ≠ x := fun z => hd (z ▸ y)
+          have hmm : row.mid ≠ mid := by
+            have h1 := (hb.ev.distinct e heM x hxM hex).2.2
+            rw [rowOf_mid hr, hmid] at h1
+            exact fun z => h1 (by rw [z])
+          obtain ⟨d1, d2⟩ := h.done e y heM row hr
+          rw [hs.msgs, findRow_upsert_ne _ _ _ hmm, hs.consumed]
+          exact ⟨d1, List.mem_cons_of_mem _ d2⟩
+        · simp only [List.mem_singleton] at y
+          subst y
+          rw [hrow] at hr
+          cases hr
+          rw [hs.msgs, hs.consumed]
+          exact ⟨findRow_upsert_self _ _, by simp⟩
+      · intro e he
+        rcases List.mem_append.mp he with y | y
+        · exact h.dlOK e y
+        · simp only [List.mem_singleton] at y; subst y; exact Or.inl hxM
+  · have hq : Quiet x.n c (deliver c x nx).1 :=
+      quiet_stale 3 nx c x (secretsOK_ensure _ h.ready.sec) (by rw [h.path]; exact hst.1)
+    exact slotInv_quiet h hq hpers (fun hxM => absurd rfl (hst.2 x hxM)) (Or.inr hst)
+
+/-- **one slot**: any list over the slot's messages and stale events — any order, any repetition — leaves every
+    delivered message of the slot stored exactly as sent, and touches nothing else -/
+theorem slot_run (c0 : Cl) (M : List Ev) (nx : Nat) (hb : SlotBase c0 M) (l : List Ev) :
+    ∀ (dl : List Ev) (c : Cl), SlotInv c0 M dl c → (∀ e ∈ l, e ∈ M ∨ StaleSlot c0.g.path M e) →
+      SlotInv c0 M (dl ++ l) (run nx c l) := by
+  induction l with
+  | nil => intro dl c h _; simpa using h
+  | cons x t ih =>
+    intro dl c h hl
+    have := ih (dl ++ [x]) _ (slot_step c0 M dl c x nx hb h (hl x List.mem_cons_self))
+      (fun e he => hl e (List.mem_cons_of_mem _ he))
+    rw [run_cons]
+    simpa using this
+
 end MdkVerif.ChainMsg
